@@ -272,7 +272,7 @@ def run(m, chk):
         "define them and asks both for the same size (PAIR); the literal seeds satisfy length / sum / symmetry / moment equations against closed forms coded in the checker (SEED); Integrate.* do not modify the curve "
         "and depend on all their inputs. Exactness order of the *computed* rules, the closed-form spline integral and polyline length are not decided."
     )
-    chk.decides = ["PURE-MEMO", "PAIR (family and size)", "SEED", "PURE", "DEP-MAY"]
+    chk.decides = ["PURE-MEMO", "PAIR (family and size)", "SEED", "PURE", "DEP-MAY", 'MEMO-KEY (no value-keyed memoisation)']
     chk.not_decided = ["exactness order of the computed rules for every n (Linalg.invert)", "Integrate.scalar equals the closed form", "polyline length"]
     chk.assume("numpy.polynomial.legendre.leggauss is deterministic")
     tabs, acc = pure_memo(r, chk)
